@@ -43,7 +43,12 @@ func (vbEmpty) Read(ctx context.Context, p thrift.TProtocol) error {
 func (vbEmpty) String() string { return "vbEmpty" }
 
 // vbPing is a hand-written FProcessorFunction for a method without arguments.
-type vbPing struct{ calls *int }
+// vbPing is shaped like a generated processor function: it replies through SendReply, i.e. under the
+// processor's write mutex.
+type vbPing struct {
+	calls *int
+	base  *FBaseProcessorFunction
+}
 
 func (v vbPing) Process(fctx FContext, in, out *FProtocol) error {
 	ctx := context.Background()
@@ -54,6 +59,9 @@ func (v vbPing) Process(fctx FContext, in, out *FProtocol) error {
 		return err
 	}
 	*v.calls++
+	if v.base != nil {
+		return v.base.SendReply(fctx, out, "ping", vbEmpty{})
+	}
 	out.WriteResponseHeader(fctx)
 	out.WriteMessageBegin(ctx, "ping", thrift.REPLY, 0)
 	vbEmpty{}.Write(ctx, out)
@@ -212,7 +220,7 @@ func vbEntryPoints() []vbEP {
 		mkProc := func() (*FBaseProcessor, *int) {
 			n := 0
 			p := NewFBaseProcessor()
-			p.AddToProcessorMap("ping", vbPing{calls: &n})
+			p.AddToProcessorMap("ping", vbPing{calls: &n, base: NewFBaseProcessorFunction(p.GetWriteMutex(), nil)})
 			return p, &n
 		}
 		eps = append(eps, vbEP{name: "FBaseProcessor.Process/" + proto, stream: true, run: func(b []byte) string {
@@ -620,6 +628,22 @@ func vbMain(mode string, shard, nshards int, tier string, replay string) {
 					vbRunInput(res, eps, body, only)
 					res.Inputs--
 				}
+			}
+		}
+		// well-formed but hostile requests: an unknown method with a name of 600 KiB (the reply echoes it
+		// twice and does not fit a 1 MiB reply buffer) and a correlation id just under 1 MiB
+		bigName := vbMessage("binary", map[string]string{"_opid": "1", "_cid": "c", "_timeout": "50"}, strings.Repeat("n", 600<<10), thrift.CALL)
+		bigCid := vbMessage("binary", map[string]string{"_opid": "1", "_cid": strings.Repeat("c", 1<<20-200), "_timeout": "50"}, "nope", thrift.CALL)
+		for _, in := range [][]byte{bigName, vbFramed(bigName), bigCid, vbFramed(bigCid)} {
+			idx++
+			if idx%nshards != shard {
+				continue
+			}
+			res.Inputs++
+			res.Nontrivial++
+			for _, ep := range eps {
+				vbRunInput(res, eps, in, map[string]bool{ep.name: true})
+				res.Inputs--
 			}
 		}
 	case "templates":
